@@ -39,4 +39,4 @@ for id in $IDS; do
   git -C "$WT" checkout -- .
 done
 cmake --build "$WT/_build" -j16 >/dev/null 2>&1
-cat "$OUT"/C*.txt
+for id in $IDS; do cat "$OUT/$id.txt"; done
